@@ -184,6 +184,12 @@ deriving Repr, DecidableEq, Inhabited
 
 def isWordChar (c : Char) : Bool := c.isAlphanum || c == '_'
 
+/-- `str.isspace()` of one character: the one-character tokens `TokenStream` drops (`if i.strip()`) -/
+def isSpaceChar (c : Char) : Bool :=
+  let n := c.toNat
+  (9 ≤ n && n ≤ 13) || (28 ≤ n && n ≤ 32) || n == 0x85 || n == 0xA0 || n == 0x1680 ||
+  (0x2000 ≤ n && n ≤ 0x200A) || n == 0x2028 || n == 0x2029 || n == 0x202F || n == 0x205F || n == 0x3000
+
 /-- tokens: maximal runs of word characters, or single non-space characters -/
 def tokenize (s : String) : List String :=
   let rec go : List Char → List Char → List String → List String
@@ -192,7 +198,7 @@ def tokenize (s : String) : List String :=
       if isWordChar c then go cs (c :: cur) acc
       else
         let acc := if cur.isEmpty then acc else String.ofList cur.reverse :: acc
-        if c.isWhitespace then go cs [] acc else go cs [] (String.singleton c :: acc)
+        if isSpaceChar c then go cs [] acc else go cs [] (String.singleton c :: acc)
   go s.toList [] []
 
 def isWordTok (t : String) : Bool := !t.isEmpty && t.toList.all isWordChar
